@@ -1127,11 +1127,14 @@ def build_all(ctx, with_iso_fib=True):
     jobs = {
         ("sp", "pq"): lambda: ctx.cpp("harness/c04.cpp", name="c04_sp_pq"),
         ("sp", "fib"): lambda: ctx.cpp("harness/c04.cpp", name="c04_sp_fib", defines=["TAPKEE_USE_FIBONACCI_HEAP"]),
-        ("iso", "pq"): lambda: ctx.cpp("harness/c04.cpp", name="c04_iso_pq", defines=["C04_WITH_ISO"]),
+        # the embed() unit is compiled -O0 -g1 (still ASan/UBSan/_GLIBCXX_ASSERTIONS): halves the 80-100 s build
+        ("iso", "pq"): lambda: ctx.cpp("harness/c04.cpp", name="c04_iso_pq", defines=["C04_WITH_ISO"],
+                                       extra=["-O0", "-g1"]),
     }
     if with_iso_fib:
         jobs[("iso", "fib")] = lambda: ctx.cpp("harness/c04.cpp", name="c04_iso_fib",
-                                               defines=["C04_WITH_ISO", "TAPKEE_USE_FIBONACCI_HEAP"])
+                                               defines=["C04_WITH_ISO", "TAPKEE_USE_FIBONACCI_HEAP"],
+                                               extra=["-O0", "-g1"])
     out, errs = {}, []
     with ThreadPoolExecutor(max_workers=4) as pool:
         futs = {k: pool.submit(f) for k, f in jobs.items()}
